@@ -213,7 +213,7 @@ pub fn block_shape(rng: &mut Rng, slot: u64) -> (Vec<SliceSpec>, &'static str) {
     let k = rng.range(1, 5);
     let p0 = (slot - 1 - rng.below(slot.min(2)), rng.range(1, 3));
     let mut specs: Vec<SliceSpec> = (0..k).map(|i| SliceSpec { idx: i, last: i + 1 == k, parent: if i == 0 { Some(p0) } else { None }, txs_ok: true, salt: rng.next() }).collect();
-    let shape = match rng.below(18) {
+    let shape = match rng.below(19) {
         0..=4 => "honest",
         5 => { if k > 1 { let i = rng.range(1, k - 1) as usize; specs[i].parent = Some((p0.0.saturating_sub(1), 7)); } "honest-handover" }
         6 => { specs[0].parent = None; "first-slice-without-parent" }
@@ -232,7 +232,10 @@ pub fn block_shape(rng: &mut Rng, slot: u64) -> (Vec<SliceSpec>, &'static str) {
                 if k > 1 { let i = rng.range(1, k - 1) as usize; specs[i].parent = Some((p0.0, if p0.1 == 1 { 2 } else { 1 })); "honest-handover-same-slot" } else { "honest" } }
         15 => { // a later slice hands over to a parent that is not in an earlier slot
                 if k > 1 { let i = rng.range(1, k - 1) as usize; specs[i].parent = Some((slot + rng.below(2), 3)); "handover-parent-not-in-earlier-slot" } else { specs[0].parent = Some((slot + rng.below(2), 3)); "parent-not-in-earlier-slot" } }
-        _ => "honest-tag-flip",
+        17 => "honest-tag-flip",
+        _ => { // the leader signs one slice of a multi-slice block a second time with the same content (same slice root) and
+               // the opposite last flag; it shows up right after the first version of that slice was reconstructed
+               if k > 1 { "resigned-slice-mid-block" } else { "honest" } }
     };
     (specs, shape)
 }
@@ -302,8 +305,23 @@ pub fn gen_c13(seed: u64, tier: Tier) -> CaseSet {
         let slot = rng.range(2, 9);
         let (specs, shape) = block_shape(&mut rng, slot);
         *shapes.entry(shape).or_default() += 1;
-        let built: Vec<BuiltSlice> = specs.iter().map(|s| build_slice(&mut rng, slot, &sk, s)).collect();
+        let mut built: Vec<BuiltSlice> = specs.iter().map(|s| build_slice(&mut rng, slot, &sk, s)).collect();
         let mut dels = deliveries(&mut rng, &built, shape);
+        if shape == "resigned-slice-mid-block" {
+            let n = built.len();
+            let i = rng.below(n as u64 - 1) as usize;
+            let flipped = !built[i].spec.last;
+            let again = resign_slice(&built[i], slot, &sk, flipped);
+            built.push(again);
+            // slice i completely first, then a few shreds of its re-signed twin, then everything else
+            let mut front: Vec<Deliver> = dels.iter().filter(|d| matches!(d, Deliver::Dissem(s, _, _) if *s == i)).cloned().collect();
+            let rest: Vec<Deliver> = dels.iter().filter(|d| !matches!(d, Deliver::Dissem(s, _, _) if *s == i)).cloned().collect();
+            let mut idxs: Vec<usize> = (0..TOTAL_SHREDS).collect();
+            rng.shuffle(&mut idxs);
+            for &k in idxs.iter().take(rng.range(1, 6) as usize) { front.push(Deliver::Dissem(n, k, false)); }
+            front.extend(rest);
+            dels = front;
+        }
         // occasionally: the leader's own fast path instead, or a repaired copy next to the disseminated one
         let mode = rng.below(12);
         if mode == 0 && shape.starts_with("honest") && shape != "honest-tag-flip" {
@@ -324,7 +342,7 @@ pub fn gen_c13(seed: u64, tier: Tier) -> CaseSet {
         descr.push(format!("case {}: slot {}, shape {}, {} signed slices, {} deliveries, events first/block/invalid = {:?}", cid, slot, shape, built.len(), dels.len(), out.events));
         cases.push(out.txt);
     }
-    stats.rule = "blocks of 1-5 small slices signed by a fresh leader key with the real RegularShredder: honest shapes (incl. one optimistic handover) and Byzantine-signed ones (first slice without parent, parent switched twice / to the same value, undecodable data, parent not in an earlier slot, conflicting slice, contradictory last markers, an honest shred with its unsigned data/coding tag flipped); per slice a subset of 20..64 shreds (32/33/64, random, structured) with duplicates, delivered slice by slice, interleaved, partially swapped or reversed; sometimes through the leader's own fast path or additionally through repair; non-trivial = a Block or InvalidBlock event occurred; distinct by full trace".into();
+    stats.rule = "blocks of 1-5 small slices signed by a fresh leader key with the real RegularShredder: honest shapes (incl. one optimistic handover) and Byzantine-signed ones (one slice of a multi-slice block signed a second time with the same root and the opposite last flag right after its first version was reconstructed, first slice without parent, parent switched twice / to the same value, undecodable data, parent not in an earlier slot, conflicting slice, contradictory last markers, an honest shred with its unsigned data/coding tag flipped); per slice a subset of 20..64 shreds (32/33/64, random, structured) with duplicates, delivered slice by slice, interleaved, partially swapped or reversed; sometimes through the leader's own fast path or additionally through repair; non-trivial = a Block or InvalidBlock event occurred; distinct by full trace".into();
     let mut v: Vec<_> = shapes.into_iter().collect(); v.sort();
     stats.distribution.push(("block_shapes".into(), v.iter().map(|(k, c)| format!("{}={}", k, c)).collect::<Vec<_>>().join(", ")));
     let mut v: Vec<_> = kindc.into_iter().collect(); v.sort();
